@@ -2589,19 +2589,12 @@ def make_uset(dof, nasset=0, xyz=None):
         dof = _ensure_2cols(dof)
         jdof = juset = 0
         while jdof < dof.shape[0]:
-            if dof[jdof, 1] == 123456:
-                usetdf.iloc[juset : juset + 6, 0] = nasset[jdof]
-                jdof += 1
-                juset += 6
-            elif dof[jdof, 1] == 1:
-                usetdf.iloc[juset : juset + 6, 0] = nasset[jdof : jdof + 6]
-                jdof += 6
-                juset += 6
-            else:
-                # spoint
-                usetdf.iloc[juset, 0] = nasset[jdof]
-                jdof += 1
-                juset += 1
+            # each row of `dof` expands to one row per digit (0 for
+            # an spoint, or any combination of 1-6)
+            ndof = len(str(dof[jdof, 1]))
+            usetdf.iloc[juset : juset + ndof, 0] = nasset[jdof]
+            jdof += 1
+            juset += ndof
 
     if xyz is None:
         return usetdf
